@@ -233,6 +233,9 @@ pub enum Term {
     Lit(Lit),
     /// `"text"` = `Str[<bytes>]`
     Str(String),
+    /// a string with holes: `"a{e}b"` — the literal text concatenated with the holes' values (each hole
+    /// is parsed like a block body, receives the flowing value and must evaluate to a `Str`)
+    Interp(Vec<Seg>),
     Tuple(TupName, Vec<Field>),
     Match(Pat),
     Block(Expr),
@@ -242,6 +245,36 @@ pub enum Term {
     Ref(Src, Vec<Acc>),
     Tail(Option<(String, Vec<Acc>)>),
     TailRipple,
+}
+
+#[derive(Clone, Debug, PartialEq, Eq, Hash)]
+pub enum Seg {
+    /// plain text (generated without characters that need escaping)
+    Text(String),
+    Hole(Expr),
+}
+
+/// the documented value of a string with holes, written in core terms (what the reference evaluator is
+/// asked): `Str[<concatenation of the text bytes and the holes' binaries>]`, every hole as a block
+/// (scope; receives the flowing value like a tuple field), its binary by `~.0`
+pub fn desugar_interp(segs: &[Seg]) -> Term {
+    let mut parts: Vec<Chain> = vec![];
+    for s in segs {
+        match s {
+            Seg::Text(t) if t.is_empty() => {}
+            Seg::Text(t) => parts.push(Chain::new(vec![Term::Lit(Lit::Bin(t.as_bytes().to_vec()))])),
+            Seg::Hole(e) => parts.push(Chain::new(vec![Term::Block(e.clone()), Term::Access(Src::Ripple, vec![Acc::Index(0)])])),
+        }
+    }
+    let mut it = parts.into_iter();
+    let mut acc = it.next().unwrap_or_else(|| Chain::new(vec![Term::Lit(Lit::Bin(vec![]))]));
+    for p in it {
+        acc = Chain::new(vec![
+            Term::Tuple(TupName::Anon, vec![Field::Val(None, acc), Field::Val(None, p)]),
+            Term::Access(Src::Builtin("binary_concat".into()), vec![]),
+        ]);
+    }
+    Term::Tuple(TupName::Named("Str".into()), vec![Field::Val(None, acc)])
 }
 
 #[derive(Clone, Debug, PartialEq, Eq, Hash)]
@@ -441,6 +474,21 @@ impl Term {
         match self {
             Term::Lit(l) => l.src(),
             Term::Str(s) => format!("\"{s}\""),
+            Term::Interp(segs) => {
+                let mut out = String::from("\"");
+                for g in segs {
+                    match g {
+                        Seg::Text(t) => out.push_str(t),
+                        Seg::Hole(e) => {
+                            out.push('{');
+                            out.push_str(&e.src());
+                            out.push('}');
+                        }
+                    }
+                }
+                out.push('"');
+                out
+            }
             Term::Tuple(name, fs) => {
                 let mut prefix = match name {
                     TupName::Anon => String::new(),
@@ -515,6 +563,7 @@ impl Term {
         match self {
             Term::Lit(l) => l.sx("i", "b"),
             Term::Str(s) => format!("(t Str (f _ (c {})))", Lit::Bin(s.as_bytes().to_vec()).sx("i", "b")),
+            Term::Interp(segs) => desugar_interp(segs).sx(),
             Term::Tuple(name, fs) => {
                 let n = match name {
                     TupName::Anon => "_".to_string(),
@@ -646,6 +695,12 @@ fn term_ambiguous(t: &Term) -> bool {
         Term::Tuple(_, fs) => fs.iter().any(|f| matches!(f, Field::Val(_, c) if chain_ambiguous(c))),
         Term::Block(e) | Term::Fn { body: Some(e), .. } => e.branches.iter().any(|b| {
             b.cond.iter().any(chain_ambiguous) || b.cons.as_ref().map(|k| k.iter().any(chain_ambiguous)).unwrap_or(false)
+        }),
+        Term::Interp(segs) => segs.iter().any(|g| match g {
+            Seg::Hole(e) => e.branches.iter().any(|b| {
+                b.cond.iter().any(chain_ambiguous) || b.cons.as_ref().map(|k| k.iter().any(chain_ambiguous)).unwrap_or(false)
+            }),
+            _ => false,
         }),
         _ => false,
     }
